@@ -8,6 +8,10 @@
 //!    permuted — all paths stay the same, so the whole output tree must be byte-identical;
 //!  * `rename`: one root, files named `p<pos>_<item>.veryl` (the CLI walks in file-name order);
 //!    outputs are compared per item with the `p<pos>_` prefix removed.
+//! Configuration dimension: `[build] error_count_limit` in {0 (default, key absent), 1}: the knob
+//! that bounds how many diagnostics the CLI keeps, i.e. the one configuration under which "the set
+//! of diagnostics" could become "the first N in processing order". Every (project, mechanism) is
+//! run under every limit; the enumeration is project-major so a budget cut never drops a limit.
 //! Observed: every `.sv`, every `.sv.map`, the diagnostics of `veryl check` (multiset of rendered
 //! blocks) and exit codes. The filelist is compared too but only counted (C25 owns it).
 //! Repeated-run clause: the same project is built N times from scratch in fresh processes
@@ -27,6 +31,19 @@ pub struct Item {
 }
 
 pub const POOL: &[Item] = &[
+    // The two dependency-free warning items come first: the smallest project whose diagnostics
+    // come from two different files (`wn+wn3`) is then the first project of the enumeration, so
+    // even a heavily cut quick run compares a multi-file diagnostic set under every configuration.
+    Item {
+        name: "wn",
+        deps: &[],
+        text: "module WN (\n    i_a: input  logic<4>,\n    o_a: output logic<4>,\n) {\n    var unused_w: logic<4>;\n    assign o_a = i_a;\n}\n",
+    },
+    Item {
+        name: "wn3",
+        deps: &[],
+        text: "module WN3 (\n    i_a: input  logic<2>,\n    o_a: output logic<2>,\n) {\n    var unused_y: logic<2>;\n    assign o_a = i_a;\n}\n",
+    },
     Item {
         name: "pa",
         deps: &[],
@@ -82,11 +99,6 @@ pub const POOL: &[Item] = &[
         text: "module SV2 (\n    i_a: input  logic<4>,\n    o_a: output logic<4>,\n) {\n    let _k: logic<4> = $sv::ext_pkg::K;\n    inst u: $sv::ext_ip (\n        a: i_a,\n        y: o_a,\n    );\n}\n",
     },
     Item {
-        name: "wn",
-        deps: &[],
-        text: "module WN (\n    i_a: input  logic<4>,\n    o_a: output logic<4>,\n) {\n    var unused_w: logic<4>;\n    assign o_a = i_a;\n}\n",
-    },
-    Item {
         name: "wn2",
         deps: &["pa"],
         text: "module WN2 (\n    i_a: input  logic<PA::W>,\n    o_a: output logic<PA::W>,\n) {\n    var unused_x: PA::S;\n    assign o_a = i_a;\n}\n",
@@ -118,10 +130,15 @@ fn projects(n: usize) -> Vec<Vec<usize>> {
     out
 }
 
-fn toml(sources: &[String]) -> String {
+/// Values of `[build] error_count_limit`; 0 is veryl's default (unlimited) and is written by
+/// leaving the key out, so that member of the family is the plain default configuration.
+pub const LIMITS: [u32; 2] = [0, 1];
+
+fn toml(sources: &[String], limit: u32) -> String {
     let srcs = sources.iter().map(|s| format!("\"{s}\"")).collect::<Vec<_>>().join(", ");
+    let lim = if limit == 0 { String::new() } else { format!("error_count_limit = {limit}\n") };
     format!(
-        "[project]\nname = \"prj\"\nversion = \"0.1.0\"\n\n[build]\nclock_type = \"posedge\"\nreset_type = \"async_low\"\nexclude_std = true\nsources = [{srcs}]\ntarget = {{type = \"directory\", path = \"target\"}}\nsourcemap_target = {{type = \"directory\", path = \"map\"}}\nfilelist_type = \"relative\"\n"
+        "[project]\nname = \"prj\"\nversion = \"0.1.0\"\n\n[build]\nclock_type = \"posedge\"\nreset_type = \"async_low\"\nexclude_std = true\nsources = [{srcs}]\ntarget = {{type = \"directory\", path = \"target\"}}\nsourcemap_target = {{type = \"directory\", path = \"map\"}}\nfilelist_type = \"relative\"\n{lim}"
     )
 }
 
@@ -141,18 +158,18 @@ impl Mech {
 }
 
 /// Files of a project under a processing order (`order[pos]` = index into `items`).
-fn layout(items: &[&'static Item], order: &[usize], mech: Mech) -> Vec<(String, String)> {
+fn layout(items: &[&'static Item], order: &[usize], mech: Mech, limit: u32) -> Vec<(String, String)> {
     let mut files = vec![];
     match mech {
         Mech::Sources => {
             let srcs: Vec<String> = order.iter().map(|i| format!("r_{}", items[*i].name)).collect();
-            files.push(("Veryl.toml".to_string(), toml(&srcs)));
+            files.push(("Veryl.toml".to_string(), toml(&srcs, limit)));
             for it in items {
                 files.push((format!("r_{}/{}.veryl", it.name, it.name), it.text.to_string()));
             }
         }
         Mech::Rename => {
-            files.push(("Veryl.toml".to_string(), toml(&["src".to_string()])));
+            files.push(("Veryl.toml".to_string(), toml(&["src".to_string()], limit)));
             for (pos, i) in order.iter().enumerate() {
                 files.push((format!("src/p{pos}_{}.veryl", items[*i].name), items[*i].text.to_string()));
             }
@@ -233,19 +250,21 @@ struct ProjResult {
     violations: Vec<Violation>,
     filelist_differs: bool,
     has_diag: bool,
+    /// number of files that carry a warning by construction (pool items `wn*`)
+    warning_files: usize,
     outputs: usize,
     order_effective: usize,
     /// the time budget ended before all n! orders were run
     incomplete: bool,
 }
 
-fn run_project(sb: &Sandbox, idx: &[usize], mech: Mech, over_budget: &dyn Fn() -> bool) -> ProjResult {
+fn run_project(sb: &Sandbox, idx: &[usize], mech: Mech, limit: u32, over_budget: &dyn Fn() -> bool) -> ProjResult {
     let items: Vec<&'static Item> = idx.iter().map(|i| &POOL[*i]).collect();
     let n = items.len();
     let label = items.iter().map(|i| i.name).collect::<Vec<_>>().join("+");
-    let mut res = ProjResult { label: label.clone(), n, orders_run: 0, skipped: None, violations: vec![], filelist_differs: false, has_diag: false, outputs: 0, order_effective: 0, incomplete: false };
+    let mut res = ProjResult { label: label.clone(), n, orders_run: 0, skipped: None, violations: vec![], filelist_differs: false, has_diag: false, warning_files: items.iter().filter(|i| i.name.starts_with("wn")).count(), outputs: 0, order_effective: 0, incomplete: false };
     let perms = all_permutations(n);
-    let base_files = layout(&items, &perms[0], mech);
+    let base_files = layout(&items, &perms[0], mech, limit);
     let base = observe(sb, &base_files, mech);
     if base.build_exit != 0 || base.diags.iter().any(|d| d.contains("Error:") && !d.contains("veryl check failed")) {
         res.skipped = Some(format!("baseline order not clean: build exit {} diags {:?}", base.build_exit, base.diags.first()));
@@ -261,7 +280,7 @@ fn run_project(sb: &Sandbox, idx: &[usize], mech: Mech, over_budget: &dyn Fn() -
             res.incomplete = true;
             break;
         }
-        let files = layout(&items, perm, mech);
+        let files = layout(&items, perm, mech, limit);
         let o = observe(sb, &files, mech);
         res.orders_run += 1;
         // did the order really take effect?
@@ -272,6 +291,7 @@ fn run_project(sb: &Sandbox, idx: &[usize], mech: Mech, over_budget: &dyn Fn() -
         let case = |what: &str| {
             json!({
                 "mechanism": mech.name(),
+                "error_count_limit": limit,
                 "project": label,
                 "baseline_order": expected_names(&perms[0]),
                 "order": expected_names(perm),
@@ -327,8 +347,8 @@ fn run_project(sb: &Sandbox, idx: &[usize], mech: Mech, over_budget: &dyn Fn() -
         }
         if base.diags != o.diags {
             push(
-                format!("C24:diagnostics:{label}"),
-                format!("the multiset of diagnostics depends on the processing order ({})", mech.name()),
+                if limit == 0 { format!("C24:diagnostics:{label}") } else { format!("C24:diagnostics:error_count_limit={limit}:{label}") },
+                format!("the multiset of diagnostics depends on the processing order ({}, error_count_limit = {limit})", mech.name()),
                 json!(base.diags),
                 json!(o.diags),
                 case("diagnostics"),
@@ -344,7 +364,7 @@ fn run_project(sb: &Sandbox, idx: &[usize], mech: Mech, over_budget: &dyn Fn() -
 fn repeated_runs(sb: &Sandbox, idx: &[usize], times: usize) -> (usize, Option<Violation>) {
     let items: Vec<&'static Item> = idx.iter().map(|i| &POOL[*i]).collect();
     let order: Vec<usize> = (0..items.len()).collect();
-    let files = layout(&items, &order, Mech::Sources);
+    let files = layout(&items, &order, Mech::Sources, 0);
     let base = observe(sb, &files, Mech::Sources);
     for t in 1..times {
         // fresh process, fresh tree, fresh cache directories
@@ -379,25 +399,28 @@ pub fn run(ctx: &Ctx) -> Report {
     let sandboxes: Vec<Sandbox> = (0..nthreads + 1).map(|i| Sandbox::new(&ctx.scratch.join(format!("w{i}")))).collect();
 
     let max_n = if ctx.thorough() { 4 } else { 3 };
-    // task list: (n, mech, project), smaller n first, `sources` mechanism first
-    let mut tasks: Vec<(usize, Mech, Vec<usize>)> = vec![];
+    // task list: (n, mech, project, limit), smaller n first, `sources` mechanism first, the
+    // configuration dimension innermost (a project is run under every limit before the next one)
+    let mut tasks: Vec<(usize, Mech, Vec<usize>, u32)> = vec![];
     let mut requested: BTreeMap<String, u64> = BTreeMap::new();
     for n in 2..=max_n {
         for mech in [Mech::Sources, Mech::Rename] {
             // the rename mechanism is run on every project only in the thorough tier for n = 4
             for p in projects(n) {
-                *requested.entry(format!("n{n}.{}", mech.name())).or_default() += 1;
-                tasks.push((n, mech, p));
+                for limit in LIMITS {
+                    *requested.entry(format!("n{n}.{}.limit{limit}", mech.name())).or_default() += 1;
+                    tasks.push((n, mech, p.clone(), limit));
+                }
             }
         }
     }
     let capped = std::sync::atomic::AtomicBool::new(false);
-    let results: Vec<Option<ProjResult>> = super::projgen::par_in_order(&tasks, |w, (_, mech, p)| {
+    let results: Vec<Option<ProjResult>> = super::projgen::par_in_order(&tasks, |w, (_, mech, p, limit)| {
         if ctx.elapsed() > budget * 0.8 {
             capped.store(true, std::sync::atomic::Ordering::Relaxed);
             return None;
         }
-        Some(run_project(&sandboxes[w], p, *mech, &|| ctx.elapsed() > budget * 0.8))
+        Some(run_project(&sandboxes[w], p, *mech, *limit, &|| ctx.elapsed() > budget * 0.8))
     });
 
     let mut evaluations = 0u64;
@@ -406,15 +429,16 @@ pub fn run(ctx: &Ctx) -> Report {
     let mut skipped = 0u64;
     let mut filelist_differs = 0u64;
     let mut with_diags = 0u64;
+    let mut over_limit = 0u64;
     let mut effective = 0u64;
     let mut projects_partial = 0u64;
     let mut sig_count: BTreeMap<String, u64> = BTreeMap::new();
-    for ((n, mech, _), r) in tasks.iter().zip(results.into_iter()) {
+    for ((n, mech, _, limit), r) in tasks.iter().zip(results.into_iter()) {
         let Some(r) = r else { continue };
         if let Some(s) = r.skipped {
             skipped += 1;
             if rep.notes.len() < 10 {
-                rep.notes.push(format!("skipped {} ({}): {}", r.label, mech.name(), s.chars().take(300).collect::<String>()));
+                rep.notes.push(format!("skipped {} ({}, limit {limit}): {}", r.label, mech.name(), s.chars().take(300).collect::<String>()));
             }
             continue;
         }
@@ -424,7 +448,7 @@ pub fn run(ctx: &Ctx) -> Report {
             capped.store(true, std::sync::atomic::Ordering::Relaxed);
             projects_partial += 1;
         } else {
-            *projects_done.entry(format!("n{n}.{}", mech.name())).or_default() += 1;
+            *projects_done.entry(format!("n{n}.{}.limit{limit}", mech.name())).or_default() += 1;
         }
         if r.n >= 2 && r.outputs >= 2 && r.orders_run >= 2 {
             nontrivial += 1;
@@ -435,8 +459,11 @@ pub fn run(ctx: &Ctx) -> Report {
         if r.has_diag {
             with_diags += 1;
         }
+        if *limit > 0 && r.warning_files >= 2 && r.warning_files > *limit as usize && r.orders_run >= 2 {
+            over_limit += 1;
+        }
         if evaluations % 97 < r.orders_run as u64 {
-            rep.sample(json!({"project": r.label, "mechanism": mech.name(), "orders": r.orders_run, "outputs_compared": r.outputs}));
+            rep.sample(json!({"project": r.label, "mechanism": mech.name(), "error_count_limit": limit, "orders": r.orders_run, "outputs_compared": r.outputs}));
         }
         for v in r.violations {
             let c = sig_count.entry(v.signature.clone()).or_default();
@@ -483,6 +510,8 @@ pub fn run(ctx: &Ctx) -> Report {
     rep.set("max_files", max_n as u64);
     rep.set("orders_confirmed_in_processing_log", effective);
     rep.set("projects_with_warnings", with_diags);
+    rep.set("error_count_limits", json!(LIMITS));
+    rep.set("limited_projects_with_warnings_in_more_files_than_the_limit", over_limit);
     rep.set("projects_whose_filelist_order_varies_informational", filelist_differs);
     rep.set("skipped_generator_rejects", skipped);
     rep.set("violation_projects_by_signature", json!(sig_count));
@@ -502,6 +531,9 @@ pub fn run(ctx: &Ctx) -> Report {
     if permuted > 0 && effective * 10 < permuted * 9 {
         rep.machinery(format!("vacuity guard: only {effective} of {permuted} permuted orders were confirmed by the processing log"));
     }
+    if over_limit == 0 {
+        rep.machinery("vacuity guard: no project with warnings in >= 2 files was run under a non-zero error_count_limit");
+    }
     if nontrivial < 2 {
         rep.machinery("vacuity guard: fewer than 2 non-trivial projects");
     }
@@ -519,6 +551,7 @@ pub fn replay(doc: &Value) -> i32 {
         return 2;
     };
     let mech = if case["mechanism"] == "rename" { Mech::Rename } else { Mech::Sources };
+    let limit = case["error_count_limit"].as_u64().unwrap_or(0) as u32;
     let names = |k: &str| -> Vec<String> { case[k].as_array().cloned().unwrap_or_default().iter().map(|x| x.as_str().unwrap_or("").to_string()).collect() };
     let order = names("order");
     let base = names("baseline_order");
@@ -532,7 +565,7 @@ pub fn replay(doc: &Value) -> i32 {
         return 2;
     }
     let ident: Vec<usize> = (0..items.len()).collect();
-    let b = observe(&sb, &layout(&items, &ident, mech), mech);
+    let b = observe(&sb, &layout(&items, &ident, mech, limit), mech);
     let same = b.sv == o.sv && b.maps == o.maps && b.diags == o.diags && b.build_exit == o.build_exit;
     println!("order {:?} vs baseline {:?}: {}", order, base, if same { "identical" } else { "DIFFERENT" });
     if !same {
